@@ -177,8 +177,12 @@ def run(ctx):
             ctx.check(okp, 'C02.R1', '%s|pad-word-written' % cname, site, 'value word followed by a zero word of the same width', '%s does not write a zero pad word of the same width after its 4-byte value' % cname)
             rfn = ms.get('read_value') or ms.get('read')
             unp = [n for n in walk_local(rfn) if isinstance(n, ast.Call) and (call_name(n) or '').split('.')[-1] == 'unpack']
-            padchk = any(isinstance(n, ast.Compare) and isinstance(n.left, ast.Name) and n.left.id == 'pad' and isinstance(n.ops[0], ast.NotEq) and isinstance(n.comparators[0], ast.Constant) and n.comparators[0].value == 0
-                         for n in walk_local(rfn))
+            # the pad word: the local bound to the result of the last unpack of the reader, compared with 0 in a test
+            from_unpack = sorted(((a.lineno, a.targets[0].id) for a in walk_local(rfn) if isinstance(a, ast.Assign) and isinstance(a.targets[0], ast.Name)
+                                  and any(isinstance(c, ast.Call) and (call_name(c) or '').split('.')[-1] == 'unpack' for c in ast.walk(a.value))))
+            padvar = from_unpack[-1][1] if from_unpack else None
+            padchk = padvar is not None and any(isinstance(n, ast.Compare) and isinstance(n.left, ast.Name) and n.left.id == padvar and isinstance(n.ops[0], (ast.NotEq, ast.Eq, ast.IsNot, ast.Is))
+                                                and isinstance(n.comparators[0], ast.Constant) and n.comparators[0].value == 0 for n in walk_local(rfn))
             ctx.check(len(unp) == 2 and padchk, 'C02.R1', '%s|pad-word-read' % cname, site, 'reader consumes and checks the pad word', '%s reader does not consume and verify the pad word' % cname)
     for cname, tname in sorted(T_VAR.items()):
         c = prims.get(cname)
@@ -298,7 +302,14 @@ def run(ctx):
     ctx.need(len(opc) == 1 and opc[0][0].tries, 'unrecognised construct: per-item try in _process_batch')
     tr = opc[0][0].tries[-1]
     psite = m.site(tr, pb)
-    for var in ('result_reason', 'result_message'):
+    # the locals that carry status / reason / message are those handed to the ResponseBatchItem constructor
+    pbi = [c for c in walk_local(pb) if isinstance(c, ast.Call) and (call_name(c) or '').endswith('ResponseBatchItem')]
+    ctx.need(len(pbi) == 1, 'unrecognised construct: ResponseBatchItem construction in _process_batch')
+    pkw = {k.arg: k.value for k in pbi[0].keywords}
+    for fld in ('result_status', 'result_reason', 'result_message'):
+        ctx.need(isinstance(pkw.get(fld), ast.Name), 'unrecognised construct: %s of the batch item is not a local variable' % fld)
+    v_status, v_reason, v_message = pkw['result_status'].id, pkw['result_reason'].id, pkw['result_message'].id
+    for fld, var in (('result_reason', v_reason), ('result_message', v_message)):
         defs = [n for n in g.nodes if n.kind == 'stmt' and isinstance(n.stmt, ast.Assign) and isinstance(n.stmt.targets[0], ast.Name) and n.stmt.targets[0].id == var]
         bad = []
         n_arm = 0
@@ -314,9 +325,9 @@ def run(ctx):
             if isinstance(v, ast.Call) and len(v.args) == 1 and isinstance(v.args[0], ast.Name) and v.args[0].id == var and any(isinstance(t.stmt, ast.Name) and t.stmt.id == var and l == 'T' for t, l in dominating_edges(g, n)):
                 continue
             bad.append(n.line)
-        ctx.check(not bad and n_arm == len(tr.handlers), 'C02.R4', 'KmipEngine._process_batch|%s-only-on-failure' % var, psite, '%s is set in each except arm and nowhere else' % var,
-                  '%s is assigned outside the failure arms (lines %s) or missing in an arm' % (var, bad))
-    sdefs = [n for n in g.nodes if n.kind == 'stmt' and isinstance(n.stmt, ast.Assign) and isinstance(n.stmt.targets[0], ast.Name) and n.stmt.targets[0].id == 'result_status']
+        ctx.check(not bad and n_arm == len(tr.handlers), 'C02.R4', 'KmipEngine._process_batch|%s-only-on-failure' % fld, psite, '%s is set in each except arm and nowhere else' % fld,
+                  '%s is assigned outside the failure arms (lines %s) or missing in an arm' % (fld, bad))
+    sdefs = [n for n in g.nodes if n.kind == 'stmt' and isinstance(n.stmt, ast.Assign) and isinstance(n.stmt.targets[0], ast.Name) and n.stmt.targets[0].id == v_status]
     succ = [n for n in sdefs if enum_member(n.stmt.value) == ('ResultStatus', 'SUCCESS')]
     oks = len(succ) == 1 and tr in succ[0].tries and not succ[0].handlers and g.dominates(opc[0][0], succ[0])
     fails = [n for n in sdefs if n.handlers]
